@@ -34,6 +34,7 @@ MANIFEST = {
 SHA_CPP = "src/crypto/Sha256.cpp"
 HMAC_CPP = "src/crypto/HmacSha256.cpp"
 HMAC_HPP = "include/ephemeralnet/crypto/HmacSha256.hpp"
+SHA_HPP = "include/ephemeralnet/crypto/Sha256.hpp"
 
 K_DEFAULT = [
     0x428a2f98, 0x71374491, 0xb5c0fbcf, 0xe9b5dba5, 0x3956c25b, 0x59f111f1, 0x923f82a4, 0xab1c5ed5,
@@ -173,6 +174,37 @@ def extract():
         vloop["verifyFinalCmp"], vloop["verifyFinalConst"] = m.group(1), int(m.group(2), 0)
     else:
         gaps.append("verify: `return diff == 0;` not found")
+    # widths of the integers that carry a length or a count (header members, the cast in update)
+    try:
+        hpp = strip_comments((REPO / SHA_HPP).read_text(errors="replace"))
+    except Exception as ex:
+        hpp = ""
+        gaps.append(f"{SHA_HPP}: {ex}")
+
+    def width_of(ty):
+        ty = ty.replace("std::", "").strip()
+        m2 = re.fullmatch(r"u?int(?:_fast|_least)?(\d+)_t", ty)
+        if m2:
+            return int(m2.group(1))
+        return {"size_t": 64, "unsigned long long": 64, "unsigned long": 64, "unsigned": 32, "unsigned int": 32, "int": 31,
+                "unsigned short": 16, "unsigned char": 8}.get(ty)
+
+    widths = {"bitLenBits": 64, "bitLenCastBits": 64, "bufferSizeBits": 64}
+    for name, text, pat in [
+        ("bitLenBits", hpp, r"([A-Za-z_:][\w:]*(?:\s+(?:long|int|short|char))*)\s+bit_len_\s*(?:\{[^}]*\}|=\s*[^;]+)?\s*;"),
+        ("bufferSizeBits", hpp, r"([A-Za-z_:][\w:]*(?:\s+(?:long|int|short|char))*)\s+buffer_size_\s*(?:\{[^}]*\}|=\s*[^;]+)?\s*;"),
+        ("bitLenCastBits", src, r"bit_len_\s*\+=\s*static_cast<\s*([^>]+?)\s*>\s*\(\s*data\.size\(\)\s*\)"),
+    ]:
+        m = re.search(pat, text)
+        w = width_of(m.group(1)) if m else None
+        if w is None:
+            gaps.append(f"{name}: declaration/cast not found or type not understood ({m.group(1) if m else 'no match'})")
+        else:
+            widths[name] = w
+    body.append("/-- widths in bits: `bit_len_` member (Sha256.hpp), the `static_cast` of `data.size()` in `update`, `buffer_size_` member -/")
+    for k, v in widths.items():
+        body.append(f"def {k} : Nat := {v}")
+    body.append("")
     body.append("/-- `HmacSha256::verify`: `std::uint8_t diff = <init>; for (...) diff <acc>= uint8(expected[i] <diff> mac[i]); return diff <cmp> <const>;` -/")
     body.append(f"def verifyAccInit : Nat := {vloop['verifyAccInit']}")
     body.append(f"def verifyAccOp : String := \"{vloop['verifyAccOp']}\"")
